@@ -324,7 +324,7 @@ reg(
     "non-trivial = the input contains an escape sequence",
     [A_REFVT + " (only for the final 'stripped form of what was consumed' comparison)",
      "the Auto choice is compared with Never only when NO_COLOR / CLICOLOR / CLICOLOR_FORCE are unset in the monitor process (the driver clears them); the environment-dependent part of Auto is C09's subject"],
-    simple("c08"),
+    {"run": None, "replay": None, "replay_case": None},
 )
 
 
@@ -419,4 +419,29 @@ reg(
     ["a clean sanitizer run says nothing about inputs or paths the workload did not reach; Miri / valgrind see reduced workloads (their slowdown is 3-4 orders of magnitude)",
      "signatures of the functional checks other than panic / invalid piece are not C04's business and are ignored here (they are reported by their own property)"],
     {"run": _c04.run, "replay": _c04.replay, "replay_case": None},
+)
+
+
+
+def _run_c08(res, tier):
+    vh_lane(res, tier, "c08")
+    _c09.adapted_lane(res)
+
+
+def _replay_c08(doc):
+    if doc.get("sig") == "c08:to_adapted_string":
+        res = common.Result("C08", "quick", {"rule": "", "level": "exploration"})
+        _c09.adapted_lane(res)
+        for v in res.violations:
+            return {"sig": v["sig"], "msg": v["example"]["msg"]}
+        return None
+    return vh_replay("c08")[0](doc)
+
+
+PROPS["C08"]["run"] = _run_c08
+PROPS["C08"]["replay"] = _replay_c08
+PROPS["C08"]["replay_case"] = vh_replay("c08")[1]
+PROPS["C08"]["rule"] += (
+    "; plus every to_adapted_string call made by the C09 child over the 3072-environment cross product x 4 global choices x stream kinds: "
+    "the helper must render like AutoStream::new(Vec, detected choice) (stripped for Never, unchanged otherwise)"
 )
